@@ -19,6 +19,8 @@ func main() {
 			subC18(flag.Arg(0))
 		case "c06":
 			subC06(flag.Args())
+		case "sched":
+			subSched(flag.Args())
 		case "race":
 			subRace(flag.Arg(0), *tier, *seed)
 		default:
@@ -57,6 +59,8 @@ func main() {
 		runC20(rep, *tier, *seed)
 	case "C07":
 		runC07(rep, *tier, *seed)
+	case "C04", "C05":
+		runSchedSuite(rep, *tier, *seed, prop)
 	case "C06":
 		runC06(rep, *tier, *seed)
 	case "C01":
